@@ -82,9 +82,15 @@ fn run_direct(entry: &str, data: &[u8]) -> (Result<String, mon::PanicInfo>, mon:
     let e = entry.to_string();
     mon::observed(move || match e.as_str() {
         "ntlm.read_challenge_message" => {
-            let mut n = Ntlm::new("DOM".into(), "user".into(), "password".into());
-            let _ = n.create_negotiate_message();
-            format!("{}", n.read_challenge_message(&d).is_ok())
+            // the same challenge is answered by clients holding each kind of credentials (the answer encodes them in the
+            // character set the challenge selects)
+            let mut out = String::new();
+            for (dom, user, pw) in CREDS.iter() {
+                let mut n = Ntlm::new(dom.to_string(), user.to_string(), pw.to_string());
+                let _ = n.create_negotiate_message();
+                out = format!("{}", n.read_challenge_message(&d).is_ok());
+            }
+            out
         }
         "cssp.read_ts_server_challenge" => format!("{}", lcssp::read_ts_server_challenge(&d).is_ok()),
         "cssp.read_ts_validate" => format!("{}", lcssp::read_ts_validate(&d).is_ok()),
@@ -95,7 +101,24 @@ fn run_direct(entry: &str, data: &[u8]) -> (Result<String, mon::PanicInfo>, mon:
     })
 }
 
+/// credentials of the authenticating client: ASCII, Latin-1, other BMP scripts, supplementary-plane characters
+pub const CREDS: [(&str, &str, &str); 4] = [("DOM", "user", "password"), ("D\u{d6}M", "\u{fc}s\u{e9}r", "p\u{e5}ss\u{ff}"), ("\u{434}\u{43e}\u{43c}\u{435}\u{43d}", "\u{7528}\u{6237}", "\u{43f}\u{430}\u{440}\u{43e}\u{43b}\u{44c}"), ("\u{57df}\u{1f511}", "\u{1f600}user", "\u{5bc6}\u{7801}\u{1f600}")];
+
+/// sessions whose challenge is replaced run once per kind of credentials (the first with a defect is reported)
 pub fn run_plan(plan: &Plan) -> Observed {
+    let sets: &[usize] = if plan.target.starts_with("challenge") { &[0, 2, 3] } else { &[0] };
+    let mut last = None;
+    for k in sets {
+        let o = run_plan_as(plan, *k);
+        if o.panic.is_some() || alloc_violation(&o.alloc, o.server_bytes).is_some() || o.alloc.max_stack_depth > crate::props::c05::STACK_LIMIT {
+            return o;
+        }
+        last = Some(o);
+    }
+    last.unwrap()
+}
+
+fn run_plan_as(plan: &Plan, creds: usize) -> Observed {
     if let Some(entry) = plan.target.strip_prefix("direct:") {
         let (res, alloc) = run_direct(entry, &plan.mutant.bytes);
         return match res {
@@ -140,7 +163,10 @@ pub fn run_plan(plan: &Plan) -> Observed {
     });
     let _ = then_close;
     let probe = d.clone();
-    let cfg = ConnCfg::default();
+    let mut cfg = ConnCfg::default();
+    cfg.domain = CREDS[creds].0.to_string();
+    cfg.user = CREDS[creds].1.to_string();
+    cfg.password = CREDS[creds].2.to_string();
     let (res, alloc) = mon::observed(move || match client::connect_real(&cfg, d.clone()) {
         Ok(_) => "Ok".to_string(),
         Err(e) => format!("Err({})", client::err_kind(&e)),
